@@ -3,29 +3,32 @@
    for every op list and every sequence of socket budgets. *)
 From Coq Require Import List NArith ZArith Bool Lia Arith ZifyBool ZifyNat ZifyN.
 Ltac Zify.zify_post_hook ::= Z.div_mod_to_equations.
-From LTV.C05 Require Import ParamsGen.
 From LTV.C05 Require Import Model.
 Import ListNotations.
 Local Open Scope N_scope.
 
-Definition params_ok : bool :=
-  (Params.c05_max_request_queue =? 2048) && (Params.c05_request_len_limit =? 131072) &&
-  (Params.c05_write_buffer_size =? 512) && (Params.c05_sizeof_piece_hdr =? 13) && (Params.c05_sizeof_choke =? 5).
-Lemma params_ok_now : params_ok = true.
-Proof. vm_compute. reflexivity. Qed.
+(* side conditions on the PROBED policy under which all theorems hold; evaluated on the probed values at
+   run time by the extracted checker (ocaml driver, case "PARAMS q ll") *)
+Definition params_ok (P : policy) : bool := lenlimit P <=? 131072.
+Lemma params_ok_default : params_ok (mkPolicy 2048 131072 false false) = true.
+Proof. reflexivity. Qed.
 
 Section Proofs.
   Variable L : layout.
   Variable content : N -> N -> N.
   Variable enc : bool.
   Variable ks : N -> N.
+  Variable P : policy.
 
   Notation slice := (slice content).
   Notation crypt := (crypt enc ks).
   Notation fill := (fill L enc ks).
+  Notation buffered := (buffered enc ks).
+  Notation put := (put enc ks).
+  Notation keepalive := (keepalive enc ks).
   Notation ew := (ew L content enc ks).
-  Notation step := (step L content enc ks).
-  Notation run := (run L content enc ks).
+  Notation step := (step L content enc ks P).
+  Notation run := (run L content enc ks P).
   Notation wire := (wire content).
   Notation pend_payload := (pend_payload content).
   Notation enc_msg := (enc_msg content).
@@ -101,118 +104,116 @@ Section Proofs.
      keystream, from position 0 on, is what was sent plus what sits in the two buffers; the
      encryptor stands at position |P1|. *)
   Definition Inv (s : st) : Prop :=
-    (ws s <> Msg -> obuf s = []) /\
+    (ws s = WPiece -> obuf s = []) /\
     (ws s <> WPiece -> ebuf s = []) /\
     (enc = false -> ebuf s = []) /\
     len (ebuf s) <= p_len (cur s) + (match ws s with WPiece => 0 | _ => len (ebuf s) end) /\
+    (ws s = Idle -> obuf s <> [] -> last_piece s = false) /\
     exists P1, wire (msgs s) = P1 ++ pend_payload s /\
                stream s ++ obuf s ++ ebuf s = crypt 0 P1 /\
                kpos s = len P1.
 
+  Ltac sel := cbn [set_ws set_tq choked queue obuf msgs out last_piece cur closed ws send_choked ebuf eb_end kpos upc tq load_chunk].
+  Ltac inv_destruct H := destruct H as (Ho & He & Hp & Hl & Hk6 & P1 & Hw & Hs & Hk).
+
+  Lemma len_nil : len (@nil N) = 0.
+  Proof. reflexivity. Qed.
+
   Lemma inv_init : Inv init.
   Proof.
-    unfold Inv, init; cbn. repeat split; try (intros; reflexivity); try lia.
-    exists []. repeat split. now rewrite crypt_nil.
+    unfold Inv, init; sel. split; [intro H; discriminate H|]. split; [reflexivity|]. split; [reflexivity|].
+    split; [rewrite len_nil; lia|]. split; [intros _ H; exfalso; apply H; reflexivity|].
+    exists []. unfold Model.pend_payload, stream; sel. cbn [rev concat app]. repeat split. now rewrite crypt_nil.
   Qed.
-
-  Definition post_fill (s1 : st) : st :=
-    match obuf s1 with [] => s1 | _ :: _ => set_ws s1 Msg end.
-
-  Lemma post_fill_ne : forall s1, obuf s1 <> [] -> post_fill s1 = set_ws s1 Msg.
-  Proof. intros s1 H. unfold post_fill. destruct (obuf s1); [congruence|reflexivity]. Qed.
-  Lemma post_fill_e : forall s1, obuf s1 = [] -> post_fill s1 = s1.
-  Proof. intros s1 H. unfold post_fill. now rewrite H. Qed.
 
   Lemma enc_choke_ne : forall c (t : list N), enc_choke c ++ t <> [].
   Proof. intros c t. unfold enc_choke, be32. cbn [app]. discriminate. Qed.
   Lemma enc_hdr_ne : forall p, enc_piece_hdr p <> [].
   Proof. intros p. unfold enc_piece_hdr, be32. cbn [app]. discriminate. Qed.
 
-  Ltac sel := cbn [set_ws choked queue obuf msgs out last_piece cur closed ws send_choked ebuf eb_end kpos upc load_chunk].
+  Lemma app_ne_r : forall (a b : list N), b <> [] -> a ++ b <> [].
+  Proof. intros a b H E. apply app_eq_nil in E. tauto. Qed.
 
-  (* something (B) was buffered by fill: the writer goes to MSG with crypt(B) in the buffer *)
-  Lemma inv_after_fill : forall s (B : list N) ms (lp : bool) c q ch sc cl u,
-    Inv s -> ws s = Idle -> B <> [] ->
-    wire ms = wire (msgs s) ++ B ++ (if lp then slice (p_index c) (p_off c) (p_len c) else []) ->
-    Inv (mkSt ch sc q Msg (crypt (kpos s) B) lp c cl (out s) ms (ebuf s) (eb_end s) (kpos s + len B) u).
+  (* fill appended plaintext B (possibly nothing) to the buffer of an idle writer *)
+  Lemma buffered_inv : forall s (B : list N) (lp : bool) c q sc ms u,
+    Inv s -> ws s = Idle ->
+    ((B = [] /\ ms = msgs s /\ lp = last_piece s) \/
+     (B <> [] /\ wire ms = wire (msgs s) ++ B ++ (if lp then slice (p_index c) (p_off c) (p_len c) else []))) ->
+    Inv (buffered s B lp c q sc ms u).
   Proof.
-    intros s B ms lp c q ch sc cl u (Ho & He & Hp & Hl & P1 & Hw & Hs & Hk) Hws HB Hms.
-    assert (Hob : obuf s = []) by (apply Ho; rewrite Hws; discriminate).
+    intros s B lp c q sc ms u HI Hws Hcase. inv_destruct HI.
     assert (Heb : ebuf s = []) by (apply He; rewrite Hws; discriminate).
     unfold Model.pend_payload in Hw. rewrite Hws in Hw. rewrite app_nil_r in Hw.
-    unfold Inv; sel. repeat split.
-    - intro H. exfalso. apply H. reflexivity.
-    - intros _. exact Heb.
-    - intros _. exact Heb.
-    - rewrite Heb. unfold len. cbn [length]. lia.
-    - exists (P1 ++ B). unfold Model.pend_payload, stream in *; sel. repeat split.
-      + rewrite Hms, Hw, <- app_assoc. reflexivity.
-      + rewrite crypt_app, <- Hs, Hob, Heb, Hk, !app_nil_r. cbn [N.add]. reflexivity.
+    unfold Model.buffered.
+    set (ob := obuf s ++ crypt (kpos s) B).
+    assert (Hstream : stream s ++ ob ++ [] = crypt 0 (P1 ++ B)).
+    { subst ob. rewrite crypt_app, <- Hs, Heb, Hk, !app_nil_r, <- app_assoc. cbn [N.add]. reflexivity. }
+    unfold Inv; sel. rewrite Heb.
+    destruct ob as [|x ob'] eqn:Hob.
+    - (* the buffer is empty: idle *)
+      assert (HB : B = []).
+      { destruct Hcase as [[E _]|[Hne _]]; [exact E|]. exfalso.
+        apply (app_ne_r (obuf s) (crypt (kpos s) B)); [apply crypt_ne; exact Hne | exact Hob]. }
+      destruct Hcase as [(_ & Ems & _)|(Hne & _)]; [|contradiction]. subst ms.
+      repeat split; try (intros; first [reflexivity | discriminate]); try (rewrite len_nil; lia).
+      + intros _ H. exfalso. apply H. reflexivity.
+      + exists P1. unfold Model.pend_payload, stream in *; sel. rewrite HB, app_nil_r in Hstream. rewrite HB, len_nil, N.add_0_r.
+        repeat split; try assumption; [now rewrite app_nil_r | cbn [app]; rewrite app_nil_r; rewrite app_nil_r in Hstream; exact Hstream].
+    - repeat split; try (intros; first [reflexivity | discriminate]); try (rewrite len_nil; lia).
+      exists (P1 ++ B). unfold Model.pend_payload, stream in *; sel. repeat split.
+      + destruct Hcase as [(EB & Ems & Elp)|(Hne & Hms)].
+        * subst B ms lp. rewrite app_nil_r.
+          assert (Hobne : obuf s <> []).
+          { subst ob. rewrite crypt_nil, app_nil_r in Hob. rewrite Hob. discriminate. }
+          rewrite (Hk6 Hws Hobne). rewrite app_nil_r. exact Hw.
+        * rewrite Hms, Hw, <- app_assoc. reflexivity.
+      + exact Hstream.
       + rewrite len_app, Hk. reflexivity.
   Qed.
 
-  (* nothing was buffered (or the connection was closed): the writer stays idle *)
-  Lemma inv_idle_same : forall s lp c q ch sc cl k' u,
-    Inv s -> ws s = Idle -> k' = kpos s ->
-    Inv (mkSt ch sc q Idle [] lp c cl (out s) (msgs s) (ebuf s) (eb_end s) k' u).
+  (* the connection is closed by fill: nothing of this call is kept *)
+  Lemma closed_inv : forall s ch c q sc u,
+    Inv s -> ws s = Idle ->
+    Inv (mkSt ch sc q Idle (obuf s) (last_piece s) c true (out s) (msgs s) (ebuf s) (eb_end s) (kpos s) u (tq s)).
   Proof.
-    intros s lp c q ch sc cl k' u (Ho & He & Hp & Hl & P1 & Hw & Hs & Hk) Hws ->.
-    assert (Hob : obuf s = []) by (apply Ho; rewrite Hws; discriminate).
+    intros s ch c q sc u HI Hws. inv_destruct HI.
     assert (Heb : ebuf s = []) by (apply He; rewrite Hws; discriminate).
-    unfold Inv; sel. repeat split; try (intros; first [reflexivity | assumption]).
-    - rewrite Heb. unfold len. cbn [length]. lia.
-    - exists P1. unfold Model.pend_payload, stream in *; sel. rewrite Hws in Hw. rewrite Hob in Hs.
-      repeat split; assumption.
+    unfold Inv; sel. rewrite Heb. repeat split; try (intros; first [reflexivity | discriminate]); try (rewrite len_nil; lia).
+    - intros _. apply Hk6. exact Hws.
+    - exists P1. unfold Model.pend_payload, stream in *; sel. rewrite Hws, Heb in *. repeat split; assumption.
   Qed.
 
-  Lemma fill_inv : forall s, ws s = Idle -> Inv s -> Inv (post_fill (fill s)).
+  Lemma fill_inv : forall s, ws s = Idle -> Inv s -> Inv (fill s).
   Proof.
-    intros s Hws HI.
-    assert (Hi : obuf s = []) by (apply (proj1 HI); rewrite Hws; discriminate).
-    unfold Model.fill.
-    destruct (send_choked s) eqn:Hsc, (choked s) eqn:Hc; sel.
-    - (* CHOKE written, queue cleared *)
-      rewrite post_fill_ne by (sel; apply crypt_ne; rewrite <- (app_nil_r (enc_choke true)); apply enc_choke_ne). unfold set_ws; sel.
-      apply inv_after_fill; try assumption.
-      + rewrite <- (app_nil_r (enc_choke true)). apply enc_choke_ne.
-      + rewrite wire_cons. cbn [Model.enc_msg]. now rewrite app_nil_r.
-    - destruct (queue s) as [|p q'] eqn:Hq; sel.
-      + rewrite post_fill_ne by (sel; apply crypt_ne; rewrite <- (app_nil_r (enc_choke false)); apply enc_choke_ne). unfold set_ws; sel.
-        apply inv_after_fill; try assumption.
-        * rewrite <- (app_nil_r (enc_choke false)). apply enc_choke_ne.
-        * rewrite wire_cons. cbn [Model.enc_msg]. now rewrite app_nil_r.
-      + destruct (is_valid_piece L p && l_completed L (p_index p)); sel.
-        * rewrite post_fill_ne by (sel; apply crypt_ne; apply enc_choke_ne). unfold set_ws; sel.
-          apply inv_after_fill; try assumption.
-          -- apply enc_choke_ne.
-          -- rewrite !wire_cons. cbn [Model.enc_msg]. now rewrite <- !app_assoc.
-        * rewrite post_fill_e by (sel; apply crypt_nil). rewrite crypt_nil.
-          apply inv_idle_same; try assumption. unfold len. cbn [length]. lia.
-    - (* nothing to announce, choked: nothing written *)
-      rewrite Hi. rewrite post_fill_e by (sel; apply crypt_nil). rewrite crypt_nil.
-      rewrite Hws. apply inv_idle_same; try assumption. unfold len. cbn [length]. lia.
-    - destruct (queue s) as [|p q'] eqn:Hq; sel.
-      + rewrite Hi. rewrite post_fill_e by (sel; apply crypt_nil). rewrite crypt_nil.
-        rewrite Hws. apply inv_idle_same; try assumption. unfold len. cbn [length]. lia.
-      + destruct (is_valid_piece L p && l_completed L (p_index p)); sel.
-        * rewrite Hi. cbn [app].
-          rewrite post_fill_ne by (sel; apply crypt_ne; apply enc_hdr_ne). unfold set_ws; sel.
-          apply inv_after_fill; try assumption.
-          -- apply enc_hdr_ne.
-          -- rewrite wire_cons. cbn [Model.enc_msg]. reflexivity.
-        * rewrite post_fill_e by (sel; apply crypt_nil). rewrite crypt_nil.
-          apply inv_idle_same; try assumption. unfold len. cbn [length]. lia.
+    intros s Hws HI. unfold Model.fill. cbv zeta.
+    destruct (send_choked s && (5 <=? room s)) eqn:Hdc; cbn [andb negb];
+      destruct (choked s) eqn:Hc; cbn [andb];
+      try (destruct (queue s) as [|p q'] eqn:Hq); cbn [andb];
+      try (destruct (13 <=? _));
+      try (destruct (servable L p));
+      try (apply closed_inv; assumption);
+      (apply buffered_inv; try assumption);
+      try (left; repeat split; reflexivity);
+      right; (split;
+          [ first [ apply enc_choke_ne | rewrite <- (app_nil_r (enc_choke _)); apply enc_choke_ne | apply enc_hdr_ne
+                  | cbn [app]; apply enc_hdr_ne ]
+          | rewrite ?wire_cons; cbn [Model.enc_msg app]; rewrite <- ?app_assoc, ?app_nil_r; try reflexivity ]).
   Qed.
 
-  Lemma fill_closed_obuf : forall s, closed s = false -> closed (fill s) = true -> obuf (fill s) = [].
+  Lemma keepalive_inv : forall s, Inv s -> Inv (keepalive s).
   Proof.
-    intros s Hc. unfold Model.fill.
-    destruct (send_choked s), (choked s); sel;
-      try (destruct (queue s) as [|p q']; sel);
-      try (destruct (is_valid_piece L p && l_completed L (p_index p)); sel);
-      intro H; try apply crypt_nil; rewrite Hc in H; discriminate H.
+    intros s HI. unfold Model.keepalive. destruct (closed s); [exact HI|].
+    destruct (ws s) eqn:Hws; try exact HI. destruct (4 <=? room s); [|exact HI].
+    inv_destruct HI.
+    assert (Heb : ebuf s = []) by (apply He; rewrite Hws; discriminate).
+    unfold Model.pend_payload in Hw. rewrite Hws in Hw. rewrite app_nil_r in Hw.
+    unfold Inv, Model.put; sel. rewrite ?Hws, ?Heb.
+    repeat split; try (intros; first [reflexivity | discriminate]); try (rewrite len_nil; lia).
+    exists (P1 ++ enc_keep). unfold Model.pend_payload, stream in *; sel. rewrite ?Hws. repeat split.
+    - rewrite wire_cons, Hw, app_nil_r. reflexivity.
+    - rewrite crypt_app, <- Hs, Heb, Hk, !app_nil_r, <- app_assoc. cbn [N.add]. reflexivity.
+    - rewrite len_app, Hk. reflexivity.
   Qed.
-  Ltac inv_destruct H := destruct H as (Ho & He & Hp & Hl & P1 & Hw & Hs & Hk).
 
   Lemma len_firstn_skipn : forall (l : list N) n, len (firstn n l) + len (skipn n l) = len l.
   Proof. intros. rewrite <- len_app, firstn_skipn. reflexivity. Qed.
@@ -221,14 +222,10 @@ Section Proofs.
   Proof.
     intros s n HI Hws. inv_destruct HI.
     assert (Heb : ebuf s = []) by (apply He; rewrite Hws; discriminate).
-    unfold Inv, write_buf; sel. rewrite Hws in *. repeat split.
-    - intro H. exfalso. apply H. reflexivity.
-    - intros _. exact Heb.
-    - intros _. exact Heb.
-    - lia.
-    - exists P1. unfold Model.pend_payload, stream in *; sel. rewrite Hws in *. repeat split; try assumption.
-      rewrite stream_cons, <- Hs. rewrite <- (firstn_skipn (N.to_nat n) (obuf s)) at 3.
-      rewrite <- !app_assoc. reflexivity.
+    unfold Inv, write_buf; sel. rewrite Hws in *. repeat split; try (intros; first [assumption | discriminate]); try lia.
+    exists P1. unfold Model.pend_payload, stream in *; sel. rewrite Hws in *. repeat split; try assumption.
+    rewrite stream_cons, <- Hs. rewrite <- (firstn_skipn (N.to_nat n) (obuf s)) at 3.
+    rewrite <- !app_assoc. reflexivity.
   Qed.
 
   Lemma msg_to_next : forall s w, Inv s -> ws s = Msg -> obuf s = [] ->
@@ -237,22 +234,20 @@ Section Proofs.
     intros s w HI Hws Hob ->. inv_destruct HI.
     assert (Heb : ebuf s = []) by (apply He; rewrite Hws; discriminate).
     unfold Inv, set_ws; sel. unfold Model.pend_payload, stream in *; sel. rewrite Hws in *.
-    rewrite Heb in *. unfold len in *. cbn [length N.of_nat] in *.
+    rewrite Heb in *. rewrite Hob in *. unfold len in *. cbn [length N.of_nat] in *.
     destruct (last_piece s); repeat split; try (intros; first [assumption|reflexivity]); try (intro H; discriminate H); try lia.
-    - exists P1. rewrite N.add_0_r, N.sub_0_r. repeat split; assumption.
-    - exists P1. repeat split; assumption.
+    all: exists P1; rewrite ?N.add_0_r, ?N.sub_0_r; repeat split; assumption.
   Qed.
 
   Lemma write_payload_inv : forall s n, Inv s -> ws s = WPiece -> enc = false -> n <= p_len (cur s) ->
     Inv (write_payload content s n).
   Proof.
     intros s n HI Hws Henc Hn. inv_destruct HI.
-    assert (Hob : obuf s = []) by (apply Ho; rewrite Hws; discriminate).
+    assert (Hob : obuf s = []) by (apply Ho; exact Hws).
     assert (Heb : ebuf s = []) by (apply Hp; exact Henc).
-    assert (Hl0 : len (@nil N) = 0) by reflexivity.
     unfold Inv, write_payload; sel. unfold Model.pend_payload, stream in *; sel. rewrite Hws in *.
-    rewrite Heb in *. rewrite Hl0 in *. rewrite N.add_0_r, N.sub_0_r in Hw.
-    repeat split; try (intros; first [assumption | reflexivity]); try lia.
+    rewrite Heb in *. rewrite len_nil in *. rewrite N.add_0_r, N.sub_0_r in Hw.
+    repeat split; try (intros; first [assumption | reflexivity | discriminate]); try lia.
     exists (P1 ++ slice (p_index (cur s)) (p_off (cur s)) n). cbn [p_index p_off p_len]. repeat split.
     - rewrite Hw, (slice_split _ _ n _ Hn), <- app_assoc, N.add_0_r, N.sub_0_r. reflexivity.
     - rewrite stream_cons, Hob, crypt_app, <- Hs, Hob, !app_nil_r. cbn [app].
@@ -260,17 +255,17 @@ Section Proofs.
     - rewrite len_app, len_slice, Hk. reflexivity.
   Qed.
 
-  Lemma enc_refill_ws : forall s, ws (enc_refill s) = ws s.
-  Proof. intro s. unfold Model.enc_refill. destruct (p_len (cur s) <=? len (ebuf s)); reflexivity. Qed.
+  Lemma enc_refill_ws : forall s q, ws (enc_refill s q) = ws s /\ cur (enc_refill s q) = cur s /\ closed (enc_refill s q) = closed s.
+  Proof. intros s q. unfold Model.enc_refill. destruct (q <=? len (ebuf s)); auto. Qed.
 
-  Lemma enc_refill_inv : forall s, Inv s -> ws s = WPiece -> enc = true -> Inv (enc_refill s).
+  Lemma enc_refill_inv : forall s q, Inv s -> ws s = WPiece -> enc = true -> q <= p_len (cur s) -> Inv (enc_refill s q).
   Proof.
-    intros s HI Hws Henc. unfold Model.enc_refill.
-    destruct (p_len (cur s) <=? len (ebuf s)) eqn:Hle; [exact HI|]. apply N.leb_gt in Hle.
+    intros s q HI Hws Henc Hq. unfold Model.enc_refill.
+    destruct (q <=? len (ebuf s)) eqn:Hle; [exact HI|]. apply N.leb_gt in Hle.
     inv_destruct HI.
-    assert (Hob : obuf s = []) by (apply Ho; rewrite Hws; discriminate).
+    assert (Hob : obuf s = []) by (apply Ho; exact Hws).
     set (r := len (ebuf s)) in *.
-    set (n := if r =? 0 then N.min (p_len (cur s)) eb_size else N.min (p_len (cur s) - r) (eb_size - (if r =? 0 then 0 else eb_end s))).
+    set (n := if r =? 0 then N.min q eb_size else N.min (q - r) (eb_size - (if r =? 0 then 0 else eb_end s))).
     assert (Hn : n <= p_len (cur s) - r) by (subst n; destruct (r =? 0) eqn:E; [apply N.eqb_eq in E|]; lia).
     unfold Inv; sel. unfold Model.pend_payload, stream in *; sel. rewrite Hws in *. fold r in Hw.
     repeat split.
@@ -278,6 +273,7 @@ Section Proofs.
     - intro H. exfalso. apply H. reflexivity.
     - intro H. congruence.
     - rewrite len_app, len_crypt, len_slice. fold r. lia.
+    - intro H. discriminate H.
     - exists (P1 ++ slice (p_index (cur s)) (p_off (cur s) + r) n). repeat split.
       + rewrite Hw, (slice_split _ _ n _ Hn), <- app_assoc. rewrite len_app, len_crypt, len_slice. fold r.
         replace (p_off (cur s) + (r + n)) with (p_off (cur s) + r + n) by lia.
@@ -290,7 +286,7 @@ Section Proofs.
     Inv (write_ebuf s n).
   Proof.
     intros s n HI Hws Hne Hnp. inv_destruct HI.
-    assert (Hob : obuf s = []) by (apply Ho; rewrite Hws; discriminate).
+    assert (Hob : obuf s = []) by (apply Ho; exact Hws).
     pose proof (len_firstn_skipn (ebuf s) (N.to_nat n)) as Hfs.
     assert (Hf : len (firstn (N.to_nat n) (ebuf s)) = n).
     { unfold len in *. rewrite firstn_length. lia. }
@@ -300,6 +296,7 @@ Section Proofs.
     - intro H. exfalso. apply H. reflexivity.
     - intro H. rewrite (Hp H). destruct (N.to_nat n); reflexivity.
     - lia.
+    - intro H. discriminate H.
     - exists P1. repeat split; try assumption.
       + rewrite Hw. f_equal; f_equal; lia.
       + rewrite stream_cons, <- Hs, Hob. cbn [app].
@@ -309,12 +306,13 @@ Section Proofs.
   Lemma wpiece_to_idle : forall s, Inv s -> ws s = WPiece -> p_len (cur s) = 0 -> Inv (set_ws s Idle).
   Proof.
     intros s HI Hws Hz. inv_destruct HI.
-    assert (Hob : obuf s = []) by (apply Ho; rewrite Hws; discriminate).
+    assert (Hob : obuf s = []) by (apply Ho; exact Hws).
     rewrite Hws in Hl.
     assert (Heb : ebuf s = []) by (destruct (ebuf s); [reflexivity | unfold len in Hl; cbn [length] in Hl; lia]).
     unfold Inv, set_ws; sel. unfold Model.pend_payload, stream in *; sel. rewrite Hws in *.
-    repeat split; try (intros; assumption). { rewrite Heb. unfold len. cbn [length]. lia. }
-    exists P1. rewrite Hz, Heb in Hw. unfold len in Hw. cbn [length N.of_nat] in Hw. rewrite slice_zero in Hw.
+    repeat split; try (intros; first [assumption | discriminate]). { rewrite Heb. rewrite len_nil. lia. }
+    { intros _ H. contradiction. }
+    exists P1. rewrite Hz, Heb in Hw. rewrite len_nil in Hw. rewrite slice_zero in Hw.
     repeat split; assumption.
   Qed.
 
@@ -326,16 +324,22 @@ Section Proofs.
   Lemma up_chunk_inv : forall s k, Inv s -> ws s = WPiece ->
     Inv (fst (up_chunk s k)) /\ ws (fst (up_chunk s k)) = WPiece /\ closed (fst (up_chunk s k)) = closed s.
   Proof.
-    intros s k HI Hws. unfold Model.up_chunk. destruct (Bool.bool_dec enc true) as [Henc|Henc].
+    intros s k HI Hws. unfold Model.up_chunk.
+    destruct (node_quota (tq s) =? 0); [cbn [fst]; auto|].
+    set (quota := N.min (node_quota (tq s)) (p_len (cur s))).
+    assert (Hq : quota <= p_len (cur s)) by (subst quota; lia).
+    destruct (Bool.bool_dec enc true) as [Henc|Henc].
     - rewrite (if_true_eq _ enc _ _ Henc).
-      pose proof (enc_refill_inv s HI Hws Henc) as HI0. pose proof (enc_refill_ws s) as Hw0.
-      assert (Hc0 : closed (enc_refill s) = closed s).
-      { unfold Model.enc_refill. destruct (p_len (cur s) <=? len (ebuf s)); reflexivity. }
-      destruct (N.min k (N.min (p_len (cur (enc_refill s))) (len (ebuf (enc_refill s)))) =? 0); cbn [fst].
+      pose proof (enc_refill_inv s quota HI Hws Henc Hq) as HI0.
+      destruct (enc_refill_ws s quota) as (Hw0 & Hc0 & Hcl0).
+      destruct (N.min k (N.min quota (len (ebuf (enc_refill s quota)))) =? 0); cbn [fst].
       + rewrite Hw0. auto.
-      + split; [|split]; [apply write_ebuf_inv; try assumption; try lia; congruence | unfold write_ebuf; sel; congruence | unfold write_ebuf; sel; exact Hc0].
+      + split; [|split].
+        * apply write_ebuf_inv; [exact HI0 | congruence | lia | rewrite Hc0; lia].
+        * unfold write_ebuf; sel; congruence.
+        * unfold write_ebuf; sel; exact Hcl0.
     - apply Bool.not_true_is_false in Henc. rewrite (if_false_eq _ enc _ _ Henc).
-      destruct (N.min k (p_len (cur s)) =? 0); cbn [fst]; [auto|].
+      destruct (N.min k quota =? 0); cbn [fst]; [auto|].
       split; [|split]; [apply write_payload_inv; try assumption; lia | unfold write_payload; sel; exact Hws | reflexivity].
   Qed.
 
@@ -345,11 +349,8 @@ Section Proofs.
     destruct (ws s) eqn:Hws.
     - (* IDLE *)
       pose proof (fill_inv s Hws HI) as HF.
-      destruct (closed (fill s)) eqn:Hcf.
-      + rewrite post_fill_e in HF by (apply fill_closed_obuf; assumption). exact HF.
-      + destruct (obuf (fill s)) eqn:Hob.
-        * rewrite post_fill_e in HF by exact Hob. exact HF.
-        * rewrite post_fill_ne in HF by (rewrite Hob; discriminate). apply IH; [exact Hcf|exact HF].
+      destruct (closed (fill s)) eqn:Hcf; [exact HF|].
+      destruct (ws (fill s)); try exact HF. apply IH; assumption.
     - (* MSG *)
       destruct (N.min k (N.of_nat (length (obuf s))) =? 0) eqn:Hn; [exact HI|].
       set (n := N.min k (N.of_nat (length (obuf s)))) in *.
@@ -358,6 +359,7 @@ Section Proofs.
       assert (Hws1 : ws (write_buf s n) = Msg) by (unfold write_buf; sel; exact Hws).
       destruct (last_piece (write_buf s n)) eqn:Hlp.
       + apply IH; [unfold write_buf; sel; exact Hcl|].
+        change (Inv (set_ws (write_buf s n) WPiece)).
         apply msg_to_next; try assumption. rewrite Hlp. reflexivity.
       + apply IH; [unfold write_buf; sel; exact Hcl|].
         apply msg_to_next; try assumption. rewrite Hlp. reflexivity.
@@ -369,6 +371,7 @@ Section Proofs.
       + apply IH; [sel; congruence|]. apply wpiece_to_idle; try assumption. apply N.eqb_eq. exact Hz.
       + apply IH; [congruence | exact HI1].
   Qed.
+
   Definition run_from (s : st) (ops : list op) : st := fold_left step ops s.
 
   Lemma run_from_app : forall a b s, run_from s (a ++ b) = run_from (run_from s a) b.
@@ -376,12 +379,15 @@ Section Proofs.
 
   Lemma step_inv : forall s o, Inv s -> Inv (step s o).
   Proof.
-    intros s o HI. destruct o as [p|p|c|k]; cbn [Model.step].
+    intros s o HI. destruct o as [p|p|c|k|t|]; cbn [Model.step].
     - unfold recv_request. destruct (closed s); [exact HI|].
-      destruct (choked s || _ || _); [exact HI|]. destruct (existsb _ _); exact HI.
+      destruct (choked s || _ || _); [exact HI|]. destruct (eager_drop L P p); [exact HI|].
+      destruct (existsb _ _); exact HI.
     - unfold recv_cancel. destruct (closed s); exact HI.
     - unfold decide. destruct (closed s); [exact HI|]. destruct (Bool.eqb c (choked s)); exact HI.
     - destruct (closed s) eqn:Hc; [exact HI|]. apply ew_inv; assumption.
+    - destruct (closed s); exact HI.
+    - apply keepalive_inv. exact HI.
   Qed.
 
   Lemma run_from_inv : forall ops s, Inv s -> Inv (run_from s ops).
@@ -404,11 +410,11 @@ Section Proofs.
   Proof. intros ops. pose proof (run_from_inv ops init inv_init) as HI. inv_destruct HI. exists P1. auto. Qed.
 
   Theorem piece_bytes_exact_idle : forall ops,
-    ws (run ops) = Idle -> stream (run ops) = crypt 0 (wire (msgs (run ops))).
+    ws (run ops) = Idle -> obuf (run ops) = [] -> stream (run ops) = crypt 0 (wire (msgs (run ops))).
   Proof.
-    intros ops Hws. pose proof (run_from_inv ops init inv_init) as HI. change (run_from init ops) with (run ops) in HI.
+    intros ops Hws Hob. pose proof (run_from_inv ops init inv_init) as HI. change (run_from init ops) with (run ops) in HI.
     inv_destruct HI. unfold Model.pend_payload in Hw. rewrite Hws in Hw. rewrite app_nil_r in Hw.
-    rewrite Ho in Hs by (rewrite Hws; discriminate). rewrite He in Hs by (rewrite Hws; discriminate).
+    rewrite Hob in Hs. rewrite He in Hs by (rewrite Hws; discriminate).
     rewrite !app_nil_r in Hs. rewrite Hw. exact Hs.
   Qed.
 
@@ -422,10 +428,10 @@ Section Proofs.
   Qed.
 
   (* RC4 stream: what the peer received is the plaintext XOR the keystream at consecutive positions *)
-  Corollary piece_bytes_exact_rc4 : forall ops, enc = true -> ws (run ops) = Idle ->
+  Corollary piece_bytes_exact_rc4 : forall ops, enc = true -> ws (run ops) = Idle -> obuf (run ops) = [] ->
     stream (run ops) = xor_from ks 0 (wire (msgs (run ops))).
   Proof.
-    intros ops Henc Hws. rewrite (piece_bytes_exact_idle ops Hws). unfold Model.crypt. rewrite (if_true_eq _ enc _ _ Henc). reflexivity.
+    intros ops Henc Hws Hob. rewrite (piece_bytes_exact_idle ops Hws Hob). unfold Model.crypt. rewrite (if_true_eq _ enc _ _ Henc). reflexivity.
   Qed.
 
   Lemma xor_from_nth : forall l p j, (j < length l)%nat ->
@@ -486,28 +492,35 @@ Section Proofs.
     - apply IH; [assumption|]. intro H. apply Hni. right. exact H.
   Qed.
 
-  Definition len_ok (p : piece) : Prop := p_len p <= Params.c05_request_len_limit.
+  Definition len_ok (p : piece) : Prop := p_len p <= lenlimit P.
   Definition msg_ok (m : msg) : Prop :=
     match m with
     | MChoke _ => True
     | MPiece p => is_valid_piece L p = true /\ l_completed L (p_index p) = true /\ len_ok p
+    | MKeep => True
     end.
 
   Definition Inv2 (s : st) : Prop :=
     Forall len_ok (queue s) /\
-    N.of_nat (length (queue s)) <= Params.c05_max_request_queue /\
+    N.of_nat (length (queue s)) <= qlimit P /\
     NoDup (queue s) /\
     Forall msg_ok (msgs s).
 
   Lemma inv2_init : Inv2 init.
   Proof. unfold Inv2, init; sel. cbn [length]. repeat split; try constructor. apply N.le_0_l. Qed.
 
+  Ltac fill_cases s :=
+    unfold Model.fill; cbv zeta;
+    destruct (send_choked s && (5 <=? room s)) eqn:Hdc; cbn [andb negb];
+    destruct (choked s) eqn:Hc; cbn [andb];
+    try (destruct (queue s) as [|p q'] eqn:Hq); cbn [andb];
+    try (destruct (13 <=? _) eqn:H13);
+    try (match goal with |- context [servable L ?x] => destruct (servable L x) eqn:Hv end);
+    unfold Model.buffered; sel.
+
   Lemma fill_inv2 : forall s, Inv2 s -> Inv2 (fill s).
   Proof.
-    intros s (Hl & Hn & Hd & Hm). unfold Model.fill, Inv2.
-    destruct (send_choked s), (choked s); sel;
-      try (destruct (queue s) as [|p q'] eqn:Hq; sel);
-      try (destruct (is_valid_piece L p && l_completed L (p_index p)) eqn:Hv; sel);
+    intros s (Hl & Hn & Hd & Hm). unfold Inv2. fill_cases s;
       cbn [length] in *;
       repeat match goal with
       | H : Forall _ (_ :: _) |- _ => inversion H; subst; clear H
@@ -515,7 +528,7 @@ Section Proofs.
       end;
       repeat split; try assumption; try constructor; try assumption; try (cbn [msg_ok]; exact I);
       try (apply N.le_0_l); try lia;
-      try (apply andb_true_iff in Hv; destruct Hv; cbn [msg_ok]; repeat split; assumption);
+      try (unfold servable in Hv; apply andb_true_iff in Hv; destruct Hv; cbn [msg_ok]; repeat split; assumption);
       try (constructor; [cbn [msg_ok]; exact I | assumption]);
       try (rewrite Hq; cbn [length]; first [constructor | apply N.le_0_l]).
   Qed.
@@ -526,8 +539,18 @@ Section Proofs.
     closed (fst (up_chunk s k)) = closed s /\ ws (fst (up_chunk s k)) = ws s.
   Proof.
     intros s k. unfold Model.up_chunk, Model.enc_refill, write_ebuf, write_payload.
-    destruct enc; [destruct (p_len (cur s) <=? len (ebuf s))|];
+    destruct (node_quota (tq s) =? 0); [cbn; auto 10|].
+    destruct enc; [destruct (_ <=? len (ebuf s))|];
       match goal with |- context [if ?c then _ else _] => destruct c end; cbn; auto 10.
+  Qed.
+
+  Lemma keepalive_qm : forall s, queue (keepalive s) = queue s /\ choked (keepalive s) = choked s /\
+    send_choked (keepalive s) = send_choked s /\ closed (keepalive s) = closed s /\ upc (keepalive s) = upc s /\
+    (msgs (keepalive s) = msgs s \/ msgs (keepalive s) = MKeep :: msgs s).
+  Proof.
+    intro s. unfold Model.keepalive.
+    destruct (closed s) eqn:Hcl; [|destruct (ws s); [destruct (4 <=? room s)| |]]; unfold Model.put; sel;
+      repeat split; try reflexivity; try assumption; try (left; reflexivity); try (right; reflexivity).
   Qed.
 
   Lemma ew_inv2 : forall f k s, Inv2 s -> Inv2 (ew f k s).
@@ -535,7 +558,7 @@ Section Proofs.
     induction f as [|f IH]; intros k s HI; cbn [Model.ew]; [exact HI|].
     destruct (ws s).
     - pose proof (fill_inv2 s HI) as HF. destruct (closed (fill s)); [exact HF|].
-      destruct (obuf (fill s)); [exact HF|]. apply IH. exact HF.
+      destruct (ws (fill s)); try exact HF. apply IH. exact HF.
     - destruct (N.min k (N.of_nat (length (obuf s))) =? 0); [exact HI|].
       destruct (obuf (write_buf s _)); [|exact HI].
       destruct (last_piece (write_buf s _)); apply IH; exact HI.
@@ -546,10 +569,11 @@ Section Proofs.
 
   Lemma step_inv2 : forall s o, Inv2 s -> Inv2 (step s o).
   Proof.
-    intros s o HI. destruct o as [p|p|c|k]; cbn [Model.step].
+    intros s o HI. destruct o as [p|p|c|k|t|]; cbn [Model.step].
     - unfold recv_request. destruct (closed s); [exact HI|].
-      destruct (choked s || (Params.c05_max_request_queue <=? N.of_nat (length (queue s)))
-                || (Params.c05_request_len_limit <? p_len p)) eqn:Hg; [exact HI|].
+      destruct (choked s || (qlimit P <=? N.of_nat (length (queue s)))
+                || (lenlimit P <? p_len p)) eqn:Hg; [exact HI|].
+      destruct (eager_drop L P p); [exact HI|].
       destruct (existsb (piece_eqb p) (queue s)) eqn:He; [exact HI|].
       apply orb_false_iff in Hg. destruct Hg as [Hg Hlen]. apply orb_false_iff in Hg. destruct Hg as [_ Hq].
       apply N.leb_gt in Hq. apply N.ltb_ge in Hlen.
@@ -566,7 +590,12 @@ Section Proofs.
       + assumption.
     - unfold decide. destruct (closed s); [exact HI|]. destruct (Bool.eqb c (choked s)); exact HI.
     - destruct (closed s); [exact HI|]. apply ew_inv2. exact HI.
+    - destruct (closed s); exact HI.
+    - destruct (keepalive_qm s) as (Q & _ & _ & _ & _ & M). destruct HI as (Hl & Hn & Hd & Hm).
+      unfold Inv2. rewrite Q. repeat split; try assumption.
+      destruct M as [M|M]; rewrite M; [assumption|]. constructor; [exact I|assumption].
   Qed.
+
   Lemma run_from_inv2 : forall ops s, Inv2 s -> Inv2 (run_from s ops).
   Proof.
     induction ops as [|o ops IH]; intros s HI; [exact HI|]. cbn [run_from fold_left]. apply IH, step_inv2, HI.
@@ -582,8 +611,8 @@ Section Proofs.
     rewrite Forall_forall in Hm. exact (Hm _ Hin).
   Qed.
 
-  Lemma limit_lt_two32 : Params.c05_request_len_limit < two32.
-  Proof. reflexivity. Qed.
+  Lemma limit_lt_two32 : params_ok P = true -> lenlimit P < two32.
+  Proof. unfold params_ok, two32. intro H. apply N.leb_le in H. lia. Qed.
 
   (* is_valid_piece with the uint32 sum means what it should, given a uint32 length *)
   Lemma valid_spec : forall p, p_len p < two32 -> is_valid_piece L p = true ->
@@ -610,20 +639,21 @@ Section Proofs.
   Proof. intros ops p H. apply (msgs_ok ops p H). Qed.
 
   (* never_out_of_range (no uint32 wrap) + length part of length_limit *)
-  Theorem never_out_of_range : forall ops p, In (MPiece p) (msgs (run ops)) ->
-    p_index p < n_pieces L /\ 0 < p_len p /\ p_len p <= Params.c05_request_len_limit /\
+  Theorem never_out_of_range : forall ops p, params_ok P = true -> In (MPiece p) (msgs (run ops)) ->
+    p_index p < n_pieces L /\ 0 < p_len p /\ p_len p <= lenlimit P /\ p_len p <= 131072 /\
     p_off p + p_len p <= piece_size L (p_index p).
   Proof.
-    intros ops p H. destruct (msgs_ok ops p H) as (Hv & _ & Hl).
-    assert (Hlt : p_len p < two32) by (unfold len_ok in Hl; pose proof limit_lt_two32; lia).
-    destruct (valid_spec p Hlt Hv) as (A & B & C & _). repeat split; assumption.
+    intros ops p HP H. destruct (msgs_ok ops p H) as (Hv & _ & Hl).
+    assert (H17 : lenlimit P <= 131072) by (unfold params_ok in HP; apply N.leb_le in HP; exact HP).
+    assert (Hlt : p_len p < two32) by (unfold len_ok in Hl; pose proof (limit_lt_two32 HP); lia).
+    destruct (valid_spec p Hlt Hv) as (A & B & C & _). unfold len_ok in Hl. repeat split; try assumption; lia.
   Qed.
 
   (* length_limit: queue bound, no duplicate requests queued, every queued length within the limit *)
   Theorem length_limit : forall ops,
-    N.of_nat (length (queue (run ops))) <= Params.c05_max_request_queue /\
+    N.of_nat (length (queue (run ops))) <= qlimit P /\
     NoDup (queue (run ops)) /\
-    (forall p, In p (queue (run ops)) -> p_len p <= Params.c05_request_len_limit).
+    (forall p, In p (queue (run ops)) -> p_len p <= lenlimit P).
   Proof.
     intro ops. destruct (run_inv2 ops) as (Hl & Hn & Hd & _). repeat split; try assumption.
     intros p Hp. rewrite Forall_forall in Hl. exact (Hl p Hp).
